@@ -137,10 +137,23 @@ func TestClient(t *testing.T) {
 		h := CH{Servers: rapid.IntRange(2, 4).Draw(rt, "servers"), Pref: rapid.IntRange(0, 4).Draw(rt, "pref"),
 			Retries: rapid.SampledFrom([]int{0, 0, 0, 0, 0, 0, 1}).Draw(rt, "retries"), Discovery: rapid.Bool().Draw(rt, "discovery"), Health: rapid.IntRange(0, 3).Draw(rt, "health") == 0}
 		for i, n := 0, rapid.IntRange(4, 12).Draw(rt, "nacts"); i < n; i++ {
-			a := Act{Op: rapid.SampledFrom([]string{"add", "add", "add", "add", "add", "bulk", "member", "incr", "ping", "leader", "mode", "mode"}).Draw(rt, "op")}
+			a := Act{Op: rapid.SampledFrom([]string{"add", "add", "add", "add", "add", "bulk", "member", "incr", "ping", "leader", "mode", "mode", "outage", "failover"}).Draw(rt, "op")}
 			a.Server = rapid.IntRange(0, h.Servers-1).Draw(rt, "server")
 			if a.Op == "mode" {
 				a.Mode = rapid.SampledFrom([]string{"ok", "ok", "503", "400", "drop"}).Draw(rt, "mode")
+			}
+			switch a.Op {
+			case "outage":
+				// a node fails for one call and comes back: then the cluster is healthy for a while
+				bad := rapid.SampledFrom([]string{"503", "drop", "400"}).Draw(rt, "outage-mode")
+				first := rapid.SampledFrom([]string{"add", "member", "ping"}).Draw(rt, "outage-call")
+				h.Acts = append(h.Acts, Act{Op: "mode", Server: a.Server, Mode: bad}, Act{Op: first}, Act{Op: "mode", Server: a.Server, Mode: "ok"},
+					Act{Op: "add"}, Act{Op: "add"}, Act{Op: "add"})
+				continue
+			case "failover":
+				// the leader moves while everybody answers
+				h.Acts = append(h.Acts, Act{Op: "leader", Server: a.Server}, Act{Op: "add"}, Act{Op: "add"}, Act{Op: "add"})
+				continue
 			}
 			h.Acts = append(h.Acts, a)
 		}
